@@ -1,4 +1,5 @@
 import Rivaas.Lemmas.OpenAPIBuild
+set_option linter.unusedSimpArgs false
 /-
 C07 — helper lemmas: sorting, the component list, the projection, and the step from the builder's
 invariant to the document-level oracle.
